@@ -433,6 +433,31 @@ def wide_threshold_cases(ns=(63, 64, 65, 66, 100, 128, 129, 130, 257, 300), bool
                 yield {"model": spec, "points": pts}
 
 
+def cfg_small_shapes():
+    """ENUMERATED configurator shapes: one configurator Any / Xor with 2-3 members (leaves and / or small compounds), every
+    default variant (none, a leaf member, the first of several, an id that is not a member), placed at top level, as the
+    consequence of a requirement rule, or nested in a plain Any - next to an unrelated item"""
+    L = lambda i: {"k": "leaf", "id": i, "b": [0, 1]}
+    comp1 = {"k": "All", "id": "B", "c": [L("a"), L("b")]}
+    comp2 = {"k": "Any", "id": None, "c": [L("c"), L("d")]}
+    member_sets = [[L("p"), L("q")], [L("p"), L("q"), L("r")], [comp1, L("c")], [L("c"), comp1], [comp1, comp2], [comp1, comp2, L("e")], [comp2, L("e")]]
+    for kind in ("cAny", "cXor"):
+        for ms in member_sets:
+            leaf_ids = [m["id"] for m in ms if m["k"] == "leaf"]
+            defaults = [None] + [[i] for i in leaf_ids[:2]] + ([[leaf_ids[-1], leaf_ids[0]]] if len(leaf_ids) >= 2 else []) + [["zz"]]
+            for dflt in defaults:
+                for gid in ("X", None):
+                    g = {"k": kind, "id": gid, "c": ms, "default": dflt}
+                    for place in ("top", "consequence", "nested"):
+                        if place == "top":
+                            kids = [g, L("item")]
+                        elif place == "consequence":
+                            kids = [{"k": "Imply", "id": "R", "c": [L("item"), g]}]
+                        else:
+                            kids = [{"k": "Any", "id": "W", "c": [g, L("item")]}]
+                        yield {"k": "Stingy", "id": "conf", "c": kids}
+
+
 def rulebase_case(r, kinds=("Any",), falsify=(0, 1, 2)):
     """deterministic LARGE rule base: All over r rules R_j over the disjoint leaves (x_j, y_j); points: all leaves 1 with the
     leaves of k rules set to 0, for each k in ``falsify`` (rules taken from both ends and the middle)"""
